@@ -84,7 +84,7 @@ func CheckC16(sc Scenario, rec *Rec) error {
 }
 
 func TestC16(t *testing.T) {
-	runProp(t, "C16", "parallel", 60, 400, genScenario(ScenarioCfg{MaxEpochs: pick(12, 30), Parallel: 2, Structural: true, MaxPop: pick(30, 60), CancelTail: true, Warm: true, Retry: true}), CheckC16)
+	runProp(t, "C16", "parallel", 60, 400, genScenario(ScenarioCfg{MaxEpochs: pick(12, 30), Parallel: 2, Structural: true, MaxPop: pick(30, 60), CancelTail: true, Warm: true, Retry: true, BigPops: true}), CheckC16)
 }
 
 func init() { registerReplay("C16", "parallel", CheckC16) }
